@@ -554,7 +554,7 @@ class Engine:
                 # `import a.b.c` binds the top package `a`; `import a.b.c as x` binds the module itself
                 return ModuleVal(name if name == imp[1].split('.')[0] else imp[1])
             rp = source.module_relpath(imp[1])
-            if rp is not None:
+            if rp is not None and rp != mod.relpath:       # (`from . import x` inside a package's __init__ names a submodule)
                 m2 = source.load(rp)
                 v = self.module_name(m2, imp[2])
                 if v is not NotImplemented:
